@@ -42,12 +42,17 @@ Fixpoint labels_eqb (x y : list label) : bool :=
 (* The code closes the handle in the sync-failure branch without looking at the result; the
    hook cannot report one. Observed logs print it as false; normalise the plan the same way. *)
 
+(* the validity oracle of a case: membership in the table's valid entries. Written with [if] so
+   that the (long) byte comparison only runs for valid entries: vm_compute is call by value. *)
+Definition valid_in (tab : list (str * bool)) (d : str) : bool :=
+  existsb (fun e : str * bool => if snd e then str_eqb d (fst e) else false) tab.
+
 (* ---------------------------------------------------------------- set comparison *)
-Definition pair_eqb (x y : str * str) := str_eqb (fst x) (fst y) && str_eqb (snd x) (snd y).
+Definition pair_eqb (x y : str * str) := if str_eqb (fst x) (fst y) then str_eqb (snd x) (snd y) else false.
 Definition subset {A} (eqb : A -> A -> bool) (x y : list A) := forallb (fun a => existsb (eqb a) y) x.
 Definition same_set {A} (eqb : A -> A -> bool) (x y : list A) :=
-  (length x =? length y) && subset eqb x y && subset eqb y x.
-Definition ent_eqb (x y : fname * str) := fname_eqb (fst x) (fst y) && str_eqb (snd x) (snd y).
+  if length x =? length y then (if subset eqb x y then subset eqb y x else false) else false.
+Definition ent_eqb (x y : fname * str) := if fname_eqb (fst x) (fst y) then str_eqb (snd x) (snd y) else false.
 
 (* ---------------------------------------------------------------- C16 *)
 Inductive opF :=
@@ -160,7 +165,7 @@ Fixpoint eval_steps (c : cfg) (draw : nat -> str) (pos : nat) (s : state) (steps
 Definition eval_case (cs : caseF) : bool * bool :=
   match cs with
   | CSeq fixed maxatt tab draws steps =>
-      let c := mkC fixed maxatt (fun d => existsb (fun e => snd e && str_eqb d (fst e)) tab) in
+      let c := mkC fixed maxatt (valid_in tab) in
       eval_steps c (cyc draws) 0 s0 (steps (fun i => fst (nth i tab ([], false))))
   | CExhaust fixed maxatt names obs_reserves obs_ok =>
       let c := mkC fixed maxatt (fun _ => false) in
@@ -209,7 +214,7 @@ Fixpoint first_bad (c : cfg) (draw : nat -> str) (pos : nat) (s : state) (steps 
 Definition diag (cs : caseF) : option (nat * nat) :=
   match cs with
   | CSeq fixed maxatt tab draws steps =>
-      let c := mkC fixed maxatt (fun d => existsb (fun e => snd e && str_eqb d (fst e)) tab) in
+      let c := mkC fixed maxatt (valid_in tab) in
       first_bad c (cyc draws) 0 s0 (steps (fun i => fst (nth i tab ([], false)))) 0
   | _ => None
   end.
